@@ -1280,7 +1280,8 @@ class RoutingParameter:
         Returns:
             Pattern: A Pattern object that matches strings conforming to the path_template.
         """
-        return re.compile(f"^{self._convert_to_regex(path_template)}$")
+        # `**` matches any characters, including line breaks.
+        return re.compile(f"^{self._convert_to_regex(path_template)}$", re.DOTALL)
 
     # Use caching to avoid repeated computation
     # TODO(https://github.com/googleapis/gapic-generator-python/issues/2161):
@@ -1765,6 +1766,10 @@ class Method:
                 return set()
             else:
                 params.add(body)
+
+        # The http annotation uses the proto field names, whereas the request's
+        # fields are keyed by their disambiguated names.
+        params |= {p + "_" for p in params if p in utils.RESERVED_NAMES}
 
         return set(self.input.fields) - params
 
